@@ -75,7 +75,8 @@ func (t *VerifTransport) eof() error {
 func (t *VerifTransport) Read(b []byte) (int, error) {
 	t.Reads++
 	if len(b) == 0 {
-		return 0, nil
+		// read(2) with a zero-length buffer returns 0, which every sonic stream (file.Read) reports as io.EOF
+		return 0, verifEOF
 	}
 	if t.InOff >= t.Total {
 		return 0, t.eof()
